@@ -495,11 +495,11 @@ func regexpLiteralBefore(val string) (string, bool) {
 	return raw, true
 }
 
-// measured for the evidence: a selector value that begins with ^ and ends with $ and a stored series inside the date bounds on
+// measured for the evidence: a selector value that begins with ^ or ends with $ and a stored series inside the date bounds on
 // whose value (stored label, or service name) the value searched as it is and the anchored match disagree
 func profSelfAnchoredDiffers(sels []Selector, c *Ctx, pdb []PSeries) bool {
 	for _, s := range sels {
-		if (s.Op != "=~" && s.Op != "!~") || !strings.HasPrefix(s.Val, "^") || !strings.HasSuffix(s.Val, "$") {
+		if (s.Op != "=~" && s.Op != "!~") || !(strings.HasPrefix(s.Val, "^") || strings.HasSuffix(s.Val, "$")) {
 			continue
 		}
 		re, err := regexp.Compile(s.Val)
@@ -1000,7 +1000,11 @@ func cutRunes(r *rand.Rand, v string) (string, string) {
 func selfAnchoredValue(r *rand.Rand, v, other string) (string, string) {
 	pre, suf := cutRunes(r, v)
 	q := regexp.QuoteMeta
-	switch r.Intn(9) {
+	switch r.Intn(11) {
+	case 9: // one anchor only: a shortcut keyed on either end alone
+		return "^" + q(pre) + "|" + q(other), "leading-anchor-only"
+	case 10:
+		return q(other) + "|" + q(suf) + "$", "trailing-anchor-only"
 	case 0, 1:
 		return "^" + q(pre) + "|" + q(other) + "$", "prefix-branch"
 	case 2, 3:
@@ -1103,7 +1107,7 @@ func genSelfAnchored(r *rand.Rand, db *DB, h *Hints) ([]Matcher, string) {
 	return ms, form
 }
 
-// measured for the evidence: a matcher value that begins with ^ and ends with $, and a stored metric series with a metric sample
+// measured for the evidence: a matcher value that begins with ^ or ends with $, and a stored metric series with a metric sample
 // in the window that satisfies every OTHER matcher, on whose label value the value searched as it is (regexp.MatchString, what
 // ClickHouse match() would answer for the unwrapped value) and Prometheus' anchored match disagree
 func selfAnchoredDiffers(ms []Matcher, pms []*labels.Matcher, h *Hints, db *DB) bool {
@@ -1111,7 +1115,7 @@ func selfAnchoredDiffers(ms []Matcher, pms []*labels.Matcher, h *Hints, db *DB) 
 		return false
 	}
 	for i, m := range ms {
-		if (m.Op != "=~" && m.Op != "!~") || !strings.HasPrefix(m.Val, "^") || !strings.HasSuffix(m.Val, "$") {
+		if (m.Op != "=~" && m.Op != "!~") || !(strings.HasPrefix(m.Val, "^") || strings.HasSuffix(m.Val, "$")) {
 			continue
 		}
 		re, err := regexp.Compile(m.Val)
